@@ -459,7 +459,7 @@ func (c *Conn) RunRTx(tx RTx, cur *oracle.Image) (res RTxResult) {
 		c.step("journal fsync")
 		return c.jrn.Fsync()
 	}
-	flushDirty := func() error {
+	flushDirty := func(limit uint32) error {
 		if err := c.lockExclusive(); err != nil {
 			return err
 		}
@@ -469,7 +469,7 @@ func (c *Conn) RunRTx(tx RTx, cur *oracle.Image) (res RTxResult) {
 		}
 		sortU32(pgs)
 		for _, p := range pgs {
-			if p > newSize || p == lock {
+			if p > limit || p == lock {
 				continue
 			}
 			c.step(fmt.Sprintf("db write page %d", p))
@@ -544,7 +544,8 @@ func (c *Conn) RunRTx(tx RTx, cur *oracle.Image) (res RTxResult) {
 				c.abandon()
 				return
 			}
-			if err := flushDirty(); c.fail(&res, "spill write", err) {
+			// At spill time SQLite does not know yet that the image will shrink: every dirty page of the old image is written.
+			if err := flushDirty(origSize); c.fail(&res, "spill write", err) {
 				c.abandon()
 				return
 			}
@@ -594,7 +595,7 @@ func (c *Conn) RunRTx(tx RTx, cur *oracle.Image) (res RTxResult) {
 		c.abandon()
 		return
 	}
-	if err := flushDirty(); c.fail(&res, "db write", err) {
+	if err := flushDirty(newSize); c.fail(&res, "db write", err) {
 		c.abandon()
 		return
 	}
